@@ -405,14 +405,14 @@ def optimized(ka, kk, bits):
     if key not in _OPT_CACHE:
         from pymbolic.mapper import optimize
         cls, _plain = C.OPT_CLASSES[(ka, kk)]
-        optimize._get_ast_for_file.cache_clear()
+        getattr(optimize._get_ast_for_file, "cache_clear", lambda: None)()
         # `print_modified_code_file`: on for every other option set; it must only print
         buf = io.StringIO() if sum(bits) % 2 else None
         try:
             new = optimize.optimize_mapper(**dict(zip(OPT_NAMES, bits)),
                                            print_modified_code_file=buf)(cls)
         finally:
-            optimize._get_ast_for_file.cache_clear()
+            getattr(optimize._get_ast_for_file, "cache_clear", lambda: None)()
         if buf is not None:
             src = new.__call__.__globals__.get("_MODULE_SOURCE_CODE", "")
             if buf.getvalue() != src + "\n" or f"class {cls.__name__}" not in src:
@@ -954,13 +954,13 @@ def probe():
 
     # 4. the optimizer mutates its cached source ASTs: a later application in the same process
     #    starts from methods already rewritten for other options
-    optimize._get_ast_for_file.cache_clear()
+    getattr(optimize._get_ast_for_file, "cache_clear", lambda: None)()
     try:
         optimize.optimize_mapper(drop_args=True, drop_kwargs=True)(C.Opt00)
         second = optimize.optimize_mapper()(C.Opt11)
         got = outc(lambda: second()(e, "_a"))
     finally:
-        optimize._get_ast_for_file.cache_clear()
+        getattr(optimize._get_ast_for_file, "cache_clear", lambda: None)()
     ref = ("ok", C.Plain11()(e, "_a"))
     res.append(("optimizer-shared-ast-mutated", got != ref,
                 f"optimize_mapper()(Opt11) applied after optimize_mapper(drop_args=True, "
